@@ -930,9 +930,9 @@ def correspondence(ctx):
     # minimised past disagreements between the model and the implementation (each must now be predicted exactly)
     cases += [dict(r["case"], shape="corpus", corpus_id=r["id"]) for r in load_corpus("past_disagreements.jsonl")]
     # D46 (fixed): the targeted key-order cases must agree with the reference — all of them in the thorough tier, a
-    # quarter per seed in the quick tier
+    # sixth per seed in the quick tier
     ko = load_corpus("key_order.jsonl")
-    cases += [dict(r["case"], shape="corpus", corpus_id=r["id"]) for k, r in enumerate(ko) if ctx.tier == "thorough" or k % 4 == ctx.seed % 4]
+    cases += [dict(r["case"], shape="corpus", corpus_id=r["id"]) for k, r in enumerate(ko) if ctx.tier == "thorough" or k % 6 == ctx.seed % 6]
     n = ctx.pick(110, 2000) * (2 if changed else 1)
     cases += [gen_case(ctx.rng, max_jobs=ctx.pick(32, 90)) for _ in range(n)]
     res = run_cases(ctx, cases)
